@@ -51,6 +51,8 @@ func defsC10(tier string) []*ph.Def {
 	}
 	add(nil, false)
 	add(nil, true)
+	// a command with a longer name: its unique beginning is a positional, not the command
+	add([]*ph.CmdDef{mk("c1", ck{1, 0, 0}), {Name: "zeta", Opts: []ph.OptDef{{Name: "za", Kind: ph.Bool}}}}, false)
 	for _, k := range kinds {
 		add([]*ph.CmdDef{mk("c1", k)}, false)
 		add([]*ph.CmdDef{mk("c1", k), mk("c2", ck{0, 0, 0})}, false)
@@ -133,6 +135,18 @@ func c10Judge(pc *parserCase, verbose bool) ([]string, map[string]bool) {
 	if o.DHasErr {
 		out = append(out, fmt.Sprintf("dispatch: Dispatch returned %q although the command function returned nil", o.DErr))
 	}
+	// the caller's context is handed over as it is, even when it is already cancelled (what to do about that is the
+	// command's business): the same function runs once
+	if len(out) == 0 && len(pc.Argv) <= 2 {
+		p3 := ph.Build(pc.Def, nil)
+		p3.CancelCtx()
+		o3 := p3.Run(pc.Argv, true)
+		p3.Close()
+		flags["cancelled_context"] = true
+		if o3.Panic == "" && !o3.Hang && (o3.DHasErr || len(o3.Calls) != 1 || o3.Calls[0].Path != ex.Level || !o3.Calls[0].CtxOK) {
+			out = append(out, fmt.Sprintf("dispatch with an already cancelled context: %v ran (Dispatch error %q), want exactly %q receiving the caller's context", callPaths(o3), o3.DErr, "/"+ex.Level))
+		}
+	}
 	// start from non-initial states too: the same command line given to a program object that has already served
 	// another Parse+Dispatch round must run the same function, once (option values and leftovers of the earlier
 	// round may persist, so only the identity and number of the functions is compared)
@@ -179,9 +193,10 @@ func init() {
 				depth = 5
 			}
 			alpha := []string{"c1", "c2", "s1", "s2", "--ra", "--rs", "--rs=c1", "--oo", "--oo=x", "--ca", "--cs", "--sa", "p", "--", "--sl"}
+			ext := []string{"ze", "zeta", "c"} // unique and ambiguous beginnings of command names
 			defs := defsC10(c.Tier)
 			c.Res.Bounds = map[string]any{"L": depth, "alphabet": alpha, "definitions": len(defs)}
-			sw := &sweep{c: c, defs: defs, alpha: alpha, depth: depth}
+			sw := &sweep{c: c, defs: defs, alpha: alpha, ext: ext, depth: depth}
 			sw.visit = func(def *ph.Def, argv []string) {
 				res := c.Res
 				pc := &parserCase{Check: "C10", Def: def, Argv: argv, Dispatch: true}
@@ -191,7 +206,7 @@ func init() {
 				if flags["in_domain"] {
 					res.count("in_domain_cases", 1)
 				}
-				for _, k := range []string{"no_fn", "command_selected", "subcommand_selected", "second_round"} {
+				for _, k := range []string{"no_fn", "command_selected", "subcommand_selected", "second_round", "cancelled_context"} {
 					if flags[k] {
 						res.count("in_domain_"+k, 1)
 					}
